@@ -504,3 +504,37 @@ stage("table_lookup_freq")((lambda P, i, p: P.lsy.sin_table(S(P, i[0])),
 stage("table_lookup_phase")(
   (lambda P, i, p: P.lsy.saw_table(.05, phase=S(P, i[0])),
    lambda i, p: M.m_each(i)))
+
+
+# ------------------------------------------ element-wise broadcast functions
+stage("midi2freq")((lambda P, i, p: P.lmidi.midi2freq(S(P, i[0]) % 100),
+                    lambda i, p: M.m_each(i)))
+stage("freq2midi_gen")(
+  (lambda P, i, p: P.lmidi.freq2midi((v + 20. for v in i[0])),
+   lambda i, p: M.m_each(i)))
+stage("midi2str", prod="tup")(
+  (lambda P, i, p: P.lmidi.midi2str(S(P, i[0]) % 100),
+   lambda i, p: M.m_each(i)))
+stage("math_log", prod="tup")(   # complex for negative input: terminal
+  (lambda P, i, p: P.lmath.log(S(P, i[0]) + 1, base=2),
+   lambda i, p: M.m_each(i)))
+stage("math_sign")((lambda P, i, p: P.lmath.sign(S(P, i[0]) - 1500),
+                    lambda i, p: M.m_each(i)))
+stage("math_dB10")((lambda P, i, p: P.lmath.dB10(S(P, i[0]) + 1),
+                    lambda i, p: M.m_each(i)))
+stage("math_cexp", prod="tup")(          # complex output: terminal
+  (lambda P, i, p: P.lmath.cexp(S(P, i[0]) * 1e-3),
+   lambda i, p: M.m_each(i)))
+stage("math_floor")((lambda P, i, p: P.lmath.floor(S(P, i[0]) / 3),
+                     lambda i, p: M.m_each(i)))
+stage("blk_acorr", cons="blk", prod="blk")(
+  (lambda P, i, p: S(P, i[0]).map(lambda b: P.la.acorr(list(b))),
+   lambda i, p: M.m_each(i, lambda b: b)))
+stage("blk_lpc", cons="blk", prod="tup")(
+  (lambda P, i, p: S(P, i[0]).map(
+    lambda b: P.llpc.lpc.kautocor([float(v % 7) + 1. for v in b], 1)),
+   lambda i, p: M.m_each(i)))
+stage("blk_window", cons="blk", prod="blk")(
+  (lambda P, i, p: S(P, i[0]).map(
+    lambda b: [w * v for w, v in zip(P.la.window.hann(len(b)), b)]),
+   lambda i, p: M.m_each(i, lambda b: b)))
